@@ -572,7 +572,11 @@ def verify_update(ex, contract, timeout_ms=30000, restrict=None, variant=None):
                 ob("row:price", Implies(keep, value_same(F.hist_get(self, "_prices", i_eff), F.get(self, "_price"))), ("C03", "C08", "C09"))
                 # C03 / C17: index recurrence
                 Vt = capF + V
-                rewritten = Or(newpt0, Not(is_zero(E.get(self, "_value") - Vt)), Not(is_zero(E.get(self, "_notl_value") - Nn)))
+                # the index is a function of the value, the base and the date's flows: it has to be recomputed whenever one of them moved since the
+                # last update of the date (the flows recorded by that update are in the date's row) - stated from the property, not from the code's
+                # guard: before fix c60ffe2 the code looked at value and notional only and this clause was refuted (finding F17)
+                rewritten = Or(newpt0, Not(is_zero(E.get(self, "_value") - Vt)), Not(is_zero(E.get(self, "_notl_value") - Nn)),
+                               Not(is_zero(F.get(self, "_net_flows") - E.hist_get(self, "_all_flows", i_eff))))
                 paper = E.get(self, "_paper_trade")
                 lastv, flows, lastp = F.get(self, "_last_value"), F.get(self, "_net_flows"), F.get(self, "_last_price")
                 bottom = lastv + flows
